@@ -166,10 +166,83 @@ func unrelatedInput(r *Rand, w *Workload) *Workload {
 	return c
 }
 
+// twinWorkloads: two packages that know nothing of each other but look alike - the same
+// object and field names, each with its own veneers reaching into a nested nullable
+// path (initialize of `options.mode`, struct_fields_as_options / _as_arguments on `options`,
+// promote to constructor). State that a jenny keeps between builders and keys by name only
+// travels from one to the other. Returns the run without and with the twin.
+func twinWorkloads(r *Rand) (*Workload, *Workload, []string) {
+	mk := func(pkg string) (*WPackage, string) {
+		// the builder of Thing is the first or the last one of its package
+		optsName := Pick(r, []string{"AOptions", "ZOptions"})
+		p := &WPackage{Name: pkg, Objects: []WObject{
+			{Name: optsName, T: &WType{K: "struct", Fields: []WField{{Name: "mode", T: &WType{K: "string"}}, {Name: "size", T: &WType{K: "int"}}}}},
+			{Name: "Thing", T: &WType{K: "struct", Fields: []WField{{Name: "name", T: &WType{K: "string"}, Required: true}, {Name: "options", T: &WType{K: "ref", Ref: optsName}}}}},
+		}}
+		var y strings.Builder
+		fmt.Fprintf(&y, "language: all\npackage: %s\n", pkg)
+		var builders, options []string
+		// one of the two kinds of veneer at least, so that each package reaches into `options`
+		reach := r.Intn(3)
+		if reach != 1 {
+			builders = append(builders, "  - initialize:\n      by_object: Thing\n      set:\n        - property: options.mode\n          value: 'auto'\n")
+		}
+		if reach != 0 {
+			options = append(options, "  - "+Pick(r, []string{"struct_fields_as_options", "struct_fields_as_options", "struct_fields_as_arguments"})+":\n      by_name: Thing.options\n")
+		}
+		if r.Chance(1, 3) {
+			builders = append(builders, "  - promote_options_to_constructor:\n      by_object: Thing\n      options: [name]\n")
+		}
+		if len(builders) > 0 {
+			y.WriteString("builders:\n" + strings.Join(builders, ""))
+		}
+		if len(options) > 0 {
+			y.WriteString("options:\n" + strings.Join(options, ""))
+		}
+		return p, y.String()
+	}
+	main, twin := Pick(r, []string{"mmain", "zzmain", "aamain"}), Pick(r, []string{"aatwin", "zztwin", "nntwin"})
+	w := &Workload{Files: map[string]string{}, Types: true, Builders: true, Converters: r.Bool()}
+	pm, ym := mk(main)
+	w.Files["in/"+main+"/schema.json"] = pm.RenderJSONSchemaEntry("Thing")
+	w.Files["cfg/veneers/"+main+".yaml"] = ym
+	w.Inputs = []InputSpec{{Kind: "jsonschema", Path: "in/" + main + "/schema.json", Package: main}}
+	w.VeneerDirs = []string{"cfg/veneers"}
+	w.Languages = GenLanguages(r, 1, 3)
+	if r.Bool() {
+		w.Languages = append(w.Languages, LangSpec{Name: "go", Flags: map[string]string{}})
+		seen := map[string]bool{}
+		var ls []LangSpec
+		for _, l := range w.Languages {
+			if !seen[l.Name] {
+				seen[l.Name] = true
+				ls = append(ls, l)
+			}
+		}
+		w.Languages = ls
+	}
+	w.Name = "twins:" + main + " -> " + strings.Join(w.LangNames(), ",")
+	w2 := w.Clone()
+	pt, yt := mk(twin)
+	w2.Files["in/"+twin+"/schema.json"] = pt.RenderJSONSchemaEntry("Thing")
+	w2.Files["cfg/veneers/"+twin+".yaml"] = yt
+	in2 := InputSpec{Kind: "jsonschema", Path: "in/" + twin + "/schema.json", Package: twin}
+	if r.Bool() {
+		w2.Inputs = append([]InputSpec{in2}, w2.Inputs...)
+	} else {
+		w2.Inputs = append(w2.Inputs, in2)
+	}
+	w2.Name = "twins:" + main + "+" + twin + " -> " + strings.Join(w.LangNames(), ",")
+	return w, w2, []string{main}
+}
+
 func c07Unrelated(ctx *Ctx, res *CaseResult, dir string, w, w2 *Workload, pkgs []string) (string, []string) {
-	base, ok, _ := runFiles(ctx, res, dir, w, simrt.Schedule{Default: simrt.Canonical})
+	base, ok, bex := runFiles(ctx, res, dir, w, simrt.Schedule{Default: simrt.Canonical})
 	if !ok {
 		ctx.Count("c.base_failed", 1)
+		if strings.HasPrefix(w.Name, "twins:") {
+			ctx.Count("c.twin_base_failed: "+truncate(digits.ReplaceAllString(bex.ErrString(), "N"), 120), 1)
+		}
 		return "", nil
 	}
 	got, ok, _ := runFiles(ctx, res, dir, w2, simrt.Schedule{Default: simrt.Canonical})
@@ -520,6 +593,10 @@ func init() {
 						pk = filepath.Base(in.Path)
 					}
 					pkgs = append(pkgs, pk)
+				}
+				if sr := r.Side("twins"); sr.Chance(1, 3) || ctx.Opt["twins"] != "" {
+					w, w2, pkgs = twinWorkloads(sr)
+					ctx.Count("c.twin_cases", 1)
 				}
 				sample["workload"], sample["packages"] = w.Name, pkgs
 				res.Nontrivial = append(res.Nontrivial, ShaStr("c"+w2.Fingerprint()))
